@@ -18,7 +18,7 @@ from harness.tlc import run_tlc
 REPORT = '''
 taskreport rep "rep" {
   formats json, csv
-  columns id, start, end, effort
+  columns id, start, end, effort, cost
   timeformat "%Y-%m-%d-%H:%M"
 }
 '''
@@ -32,6 +32,7 @@ def make_texts(rng):
     grp = a.add_res("team", limits=[("d", 6 * 3600)])
     r0 = a.add_res("r0", parent=grp)
     r1 = a.add_res("r1", parent=grp, eff="0.5")
+    r0.rate, r1.rate = 120, 80
     lo = a.add_task("lo", effort=8 * 3600, alloc=[r0], prio=600)
     box = a.add_task("box", prio=800, start=datetime(2024, 3, 5, 9), limits=[("d", 4 * 3600, None)])
     b1 = a.add_task("b1", parent=box, effort=10 * 3600, alloc=[r0])
@@ -47,6 +48,7 @@ def make_texts(rng):
         prim = a.add_res(n1, leaves=[(d0, d0 + timedelta(days=9))])
         slow = a.add_res(n2, leaves=[(d0, d0 + timedelta(days=16))])
         free = a.add_res(n3)
+        prim.rate, slow.rate, free.rate = 400 + 10 * k, 250, 310 + k      # money columns depend on who did the work
         a.add_task("x%d" % k, effort=16 * 3600, alloc=[prim], alt=[slow, free] if k % 2 == 0 else [free, slow], prio=450)
     a.extra = REPORT
     b = gen.limits_profile(rng, 1)[0][1]
